@@ -18,7 +18,7 @@ ASSUMPTIONS = ["jump-carrying kinds = Jump, Call, Branch*, Case* (own table in v
 def shards(tier, seed):
     from vf.common import shard_seeds
     hostile = [{"kind": "hostile", "seed": s, "n": 60 if tier == "quick" else 1500} for s in shard_seeds(seed, 2, "C03h")]
-    return std_shards("C03", tier, seed, 120, 2500, nshards=13) + hostile
+    return std_shards("C03", tier, seed, 120, 2500, nshards=13) + hostile + macro_shards(tier, seed)[:2]
 
 
 def macro_shards(tier, seed):
@@ -44,7 +44,7 @@ def features(c):
     return set(feats)
 
 
-def one(acc, text, inp, lookup=None, path=None):
+def one(acc, text, inp, lookup=None, path=None, canonical_arity=False):
     monitors.drain()
     before = monitors.COUNTS.get("K-COMPILE:evaluations", 0)
     acc.announce(inp.get("name"), {"text": text})
@@ -65,6 +65,16 @@ def one(acc, text, inp, lookup=None, path=None):
     for m in monitors.drain():
         if m["prop"] == "C03":
             acc.violation(gsig(m["sig"]), m["witness"], inp)
+    if canonical_arity:
+        # programs of my own generator write every test with the usual number of arguments: then the target is the one
+        # parameter after them (an op that carries two trailing offsets has its own target not in the last place)
+        for r in c.routine_ops:
+            for op in r:
+                name = op.op_code.name
+                if name in JUMP_IDX and len(op.params) != JUMP_IDX[name] + 1:
+                    acc.violation(gsig("jump-op-with-surplus-parameters", name), {"op": [op.offset, name, [repr(p) for p in op.params]]}, inp)
+                    return c
+        acc.count("programs_checked_for_arity")
     return c
 
 
@@ -74,7 +84,7 @@ def run_shard(shard, acc):
         from vf.macrogen import macro_workload
         for name, lay in macro_workload(shard):
             with lay:
-                c = one(acc, lay.main_text, {"name": name, "layout": lay.describe()}, lay.lookup, lay.main_path)
+                c = one(acc, lay.main_text, {"name": name, "layout": lay.describe()}, lay.lookup, lay.main_path, canonical_arity=True)
             acc.count("macro_programs")
         return
     if shard["kind"] == "hostile":
@@ -86,6 +96,13 @@ def run_shard(shard, acc):
             t = print_program(prog).text
             texts += [invalid.corrupt(t, rnd) for _ in range(6)]
         texts += [invalid.soup_text(rnd) for _ in range(shard["n"] * 3)]
+        # SsbScript with labels in unusual places: after the last op of a routine / of the file, several on one op, before the
+        # first op of the next routine
+        for body in ["a();\n    Jump(@e);\n    b();\n    @e;", "a();\n    Branch($A, 1, @e);\n    End();\n    @e;", "@s;\n    a();\n    @t;\n    @u;\n    Jump(@u);",
+                     "Jump(@n);", "a();\n    @e;\n    @f;\n    Call(@f);\n    End();"]:
+            texts.append("//?: is-ssb-script: true\ndef 0 {\n    " + body + "\n}\n")
+            texts.append("//?: is-ssb-script: true\ndef 0 {\n    " + body + "\n}\ndef 1 {\n    @n;\n    c();\n    End();\n}\n")
+            texts.append("//?: is-ssb-script: true\ndef 0 {\n    z();\n    End();\n}\ndef 1 {\n    " + body + "\n}\n")
         # jump-carrying operations written by hand with fewer / more arguments than their opcode usually has
         args = ["$F", "3", '"extra"', "CONST_X", "1.5", "{english='x'}", "Position<'m', 1, 2>"]
         for name in sorted(JUMP_IDX):
@@ -104,7 +121,7 @@ def run_shard(shard, acc):
         return
     for i, (name, prog) in enumerate(exps_workload(shard)):
         r = print_program(prog)
-        c = one(acc, r.text, {"name": name, "prog": prog, "text": r.text})
+        c = one(acc, r.text, {"name": name, "prog": prog, "text": r.text}, canonical_arity=True)
         if c is None:
             continue
         if i < 2:
